@@ -1,4 +1,6 @@
 // positive example for R07b / R07d: a reference member bound to a dying non-empty temporary; *end()
+#include <algorithm>
+#include <iterator>
 #include <string>
 #include <vector>
 #include <boost/graph/adjacency_list.hpp>
@@ -62,3 +64,42 @@ int c07_unreached_int() { return c07_unreached<int>(); }
 // R07l positive: division by a size that is zero for a forest
 #include <vector>
 std::size_t c07_grain(const std::vector<int> &cycles, const std::vector<int> &trees) { return cycles.size() / trees.size(); }
+
+// R07o: tie-break rung spelled with <= : comp(x, x) is true
+namespace r07o_pos {
+struct Cand { double w; unsigned long tree; };
+inline void sort_candidates(std::vector<Cand> &v) {
+    std::sort(v.begin(), v.end(), [](const Cand &a, const Cand &b) {
+        if (a.w != b.w) {
+            return a.w < b.w;
+        }
+        return a.tree <= b.tree;
+    });
+}
+}
+
+// R07p: the initial value 0 makes the accumulator an int
+#include <numeric>
+namespace r07p_pos {
+inline double total(const std::vector<double> &w) {
+    return std::accumulate(w.begin(), w.end(), 0);
+}
+}
+
+// R07q: the list is moved into the sink and appended to again in the next round without being cleared
+#include <list>
+namespace r07q_pos {
+template<class Out>
+inline void emit_all(const std::vector<std::vector<int>> &rounds, Out out) {
+    std::list<int> cur;
+    for (const auto &r : rounds) {
+        for (int x : r) {
+            cur.push_back(x);
+        }
+        *out++ = std::move(cur);
+    }
+}
+inline void use(std::vector<std::list<int>> &sink, const std::vector<std::vector<int>> &rounds) {
+    emit_all(rounds, std::back_inserter(sink));
+}
+}
